@@ -1,1 +1,4 @@
 // hook file for ntpd/src/daemon/spawn/pool.rs: declares the per-property harness modules
+#[cfg(any(verif_all, verif_c35))]
+#[path = "/verif/harness/ntpd/c35.rs"]
+mod c35;
